@@ -3,7 +3,8 @@ import json, os, shutil, subprocess, sys, tempfile, time, atexit, signal
 
 VERIF = os.path.dirname(os.path.dirname(os.path.abspath(__file__)))
 REPO = os.environ.get("VERIF_REPO", "/repo")
-EVIDENCE_DIR = os.path.join(VERIF, "evidence")
+# seeded-change runs (tools/run_seed*.py) redirect their evidence so that the committed files always describe /repo itself
+EVIDENCE_DIR = os.environ.get("VERIF_EVIDENCE_DIR") or os.path.join(VERIF, "evidence")
 KNOWN_FINDINGS = os.path.join(VERIF, "known_findings.txt")
 CEX_DIR = os.path.join(VERIF, "cex")           # replayable counter-examples (git-ignored)
 
